@@ -54,6 +54,11 @@ class CFG:
     def node_of(self, stmt) -> int:
         return self.by_stmt[stmt]
 
+    def live(self, stmt) -> bool:
+        """Is the statement present in this (mode-pruned) graph and reachable?"""
+        n = self.by_stmt.get(stmt)
+        return n is not None and n in self.reachable()
+
     # ---- queries -------------------------------------------------------
     def reach(self, start: int, avoid: Set[int] = frozenset(), first_labels: Optional[Set[str]] = None) -> Set[int]:
         """Nodes reachable from `start` (start itself included only if on a
